@@ -73,6 +73,22 @@ void h_node_algebra(void) {
   HARNESS_END;
 }
 
+/* 2D: tree2d.h QueryTwoDTree prunes with Rect::DoesOverlap and reports with Rect::Contains:
+ * "Does this rectangle overlap the one given (including equality)?" */
+void h_Rect(void) {
+  struct Rect a, b;
+  struct linalg_vec_double_2 p;
+  _Bool o = Rect_DoesOverlap(&a, &b);
+  __CPROVER_assert(o == (a.min.x <= b.max.x && b.min.x <= a.max.x && a.min.y <= b.max.y && b.min.y <= a.max.y), "closed-interval overlap on both axes");
+  __CPROVER_assert(o == Rect_DoesOverlap(&b, &a), "overlap is symmetric");
+  __CPROVER_assert(IMPLIES(a.max.x == b.min.x && a.min.x <= a.max.x && b.min.x <= b.max.x && a.min.y <= b.max.y && b.min.y <= a.max.y, o), "touching edges overlap (including equality)");
+  __CPROVER_assert(Rect_ContainsPt(&a, &p) == (a.min.x <= p.x && p.x <= a.max.x && a.min.y <= p.y && p.y <= a.max.y), "closed containment of a point");
+  /* pruning soundness: a point contained in b lies in every rectangle containing... : if a contains p and b is the degenerate rect at p, they overlap */
+  b.min = p; b.max = p;
+  __CPROVER_assert(IMPLIES(Rect_ContainsPt(&a, &p) , Rect_DoesOverlap(&a, &b)), "a rectangle overlaps every point it contains (no false pruning)");
+  HARNESS_END;
+}
+
 /* supporting bit-vector lemma for the radix tree: for sorted distinct 64-bit keys a<b<c,
  * delta(a,c) == min(delta(a,b), delta(b,c)) and delta(a,b) != delta(b,c).  This is
  * what makes the binary searches of RangeEnd/FindSplit mean "the whole range" and
